@@ -1,6 +1,7 @@
 (* Extraction of the C16 model to OCaml (ExtrOcamlBasic + ExtrOcamlString only; nat/N/Z stay inductive). *)
 From Coq Require Import Extraction ExtrOcamlBasic ExtrOcamlString.
-From Cb Require Import C16.Model C16.Nested.
+From Cb Require Import C16.Model C16.Nested C16.Contexts.
 Extraction Language OCaml.
 Extraction "C16/c16_model.ml" run_program stmt_out print_multiple render format_value split has_interpolation has_fmt dec
-  run_main run_comp stmt_m exec_m call_m lift_program.
+  run_main run_comp stmt_m exec_m call_m lift_program
+  run_main_c run_ccomp step_c exec_c unwind call_c embed.
